@@ -23,11 +23,15 @@ def main(argv=None) -> int:
         data = json.load(open(args.replay))
         return int(mod.replay(data))
     rc = RunContext(mod.PROPERTY, mod.LEVEL, args.tier, seed)
+    from .runner import _cov_start, _cov_stop
+    cov = _cov_start()      # only with VERIF_COV set (tools/covreport.py)
     try:
         mod.run(rc)
     except BaseException:
         import traceback
         rc.violation('harness-crash', trace=traceback.format_exc()[-3000:])
+    finally:
+        _cov_stop(cov)
     return rc.finish()
 
 
